@@ -50,6 +50,7 @@ def run(R, tier, rng, impl_only=False):
     def add(line, tag, impl, post, kind, nt, py):
         cases.append((line, tag, impl, post, kind, nt, py))
     ident = lambda v: v
+    extra = []          # cases decided by the plain list of cells alone: (line, impl, expected, nontrivial, kind, py)
     for si, ls in enumerate(shapes):
         n = sum(ls); nt = len(ls) >= 2 and n > 0
         ids = []; c = 0
@@ -66,6 +67,16 @@ def run(R, tier, rng, impl_only=False):
             rv = s.ravel_multi_index((np.array([c[0] for c in cells], dtype=int), np.array([c[1] for c in cells], dtype=int))) if cells else np.array([], dtype=int)
             return [[[int(a), int(b)] for a, b in zip(rows, cols)], [int(x) for x in rv]]
         if ls: add("mi " + show(ls), "", guarded(mi), ident, "ravel/unravel", nt, f"RaggedShape({ls}).unravel_multi_index(arange({n})) / ravel_multi_index(all cells)")
+        if ls and n >= 2:
+            # queries in ANY order and with repeats, of exactly `size` positions that start at 0 and end at size-1 included: each answer is the cell of its own position
+            cells = [(i, j) for i, l in enumerate(ls) for j in range(l)]
+            for qname, q in (("shuffled", [0] + rng.sample(range(1, n - 1), n - 2) + [n - 1]), ("repeats", [0] + [rng.randrange(n) for _ in range(n - 2)] + [n - 1]),
+                             ("reversed", list(range(n))[::-1]), ("short", [rng.randrange(n) for _ in range(max(1, n // 2))])):
+                def umi(q=q):
+                    rows, cols = RaggedShape(ls).unravel_multi_index(np.array(q, dtype=int))
+                    return [[int(a), int(b)] for a, b in zip(rows, cols)]
+                exp = [list(cells[p]) for p in q]
+                extra.append((f"unravel {qname} {ls} {q}", guarded(umi), exp, nt, "unravel/any-order", f"RaggedShape({ls}).unravel_multi_index(np.array({q}))"))
         if ls:
             offs = [0] + list(itertools.accumulate(ls))
             def legacy():
@@ -76,6 +87,7 @@ def run(R, tier, rng, impl_only=False):
         for dt in dts:
             per_dtype(add, ls, ids, dt, si, n, nt, tier, tmpdir)
 
+    for (line, impl, exp, nt_, kind, py) in extra: R.record(line, impl, (None if impl_only else exp), (None if impl_only else exp), nt_, kind, py=py)
     if impl_only:
         for (line, tag, impl, post, kind, nt, py) in cases: R.record(line + (" @" + tag if tag else ""), impl, None, None, nt, kind, py=py)
         return
